@@ -949,6 +949,104 @@ def do_account(run, model, case):
         run.count('account:chainlen<=%d' % (10 * ((len(final) + 9) // 10)))
 
 
+def do_save_restore(run, model, case):
+    """an account configured with (gap, maximum_uses_per_address) per chain generates its addresses, is saved
+    (Account.to_dict -> json, or wallet.save() -> Wallet.from_storage) and restored into a fresh database `restarts` times:
+    every generation must list the same receiving and change addresses in the same order (m/0/i, i < receiving gap;
+    m/1/i, i < change gap) and keep the configured settings"""
+    lname = case['ledger']
+    prefix = LEDGERS[lname].pubkey_address_prefix
+    cfg = {0: case['receiving'], 1: case['change']}      # [gap, maximum_uses_per_address] or None (entry absent)
+    default = {0: [20, 1], 1: [6, 1]}
+    want_cfg = {c: list(cfg[c]) if cfg[c] is not None else default[c] for c in (0, 1)}
+    gen = {'name': 'deterministic-chain'}
+    for c, cname in ((0, 'receiving'), (1, 'change')):
+        if cfg[c] is not None:
+            gen[cname] = {'gap': cfg[c][0], 'maximum_uses_per_address': cfg[c][1]}
+    sig = {'op': 'save_restore', 'receiving': case['receiving'], 'change': case['change'], 'route': case['route']}
+    run.case(case, nontrivial=True)
+    run.count('save_restore:%s' % case['route'])
+    for c in (0, 1):
+        run.count('save_restore:%s=%s' % ('receiving' if c == 0 else 'change',
+                                          'absent' if cfg[c] is None else 'receiving-default' if cfg[c] == [20, 1]
+                                          else 'change-default' if cfg[c] == [6, 1] else 'other'))
+    tmp = tempfile.mkdtemp(prefix='c06_')
+    loop = asyncio.new_event_loop()
+    try:
+        async def go():
+            gens = []
+            d = {'seed': case['mnemonic'], 'address_generator': gen}
+            wallet_path = os.path.join(tmp, 'wallet.json')
+            for k in range(case['restarts'] + 1):
+                ledger = LEDGERS[lname]({'db': Database(os.path.join(tmp, f'g{k}.db')), 'headers': Headers(':memory:')})
+                await ledger.db.open()
+                try:
+                    if k and case['route'] == 'file':
+                        wallet = Wallet.from_storage(WalletStorage(wallet_path), OneLedgerManager(ledger))
+                        acc = wallet.accounts[0]
+                    else:
+                        wallet = Wallet(storage=WalletStorage(wallet_path))
+                        acc = Account.from_dict(ledger, wallet, d)
+                    fresh = await acc.ensure_address_gap()
+                    lists = []
+                    for am in (acc.receiving, acc.change):
+                        rs = await am._query_addresses(order_by='n asc')
+                        lists.append([[r['pubkey'].n, r['address']] for r in rs])
+                    saved = json.loads(json.dumps(acc.to_dict()))
+                    if case['route'] == 'file':
+                        wallet.save()
+                    gens.append({'settings': [[am.gap, am.maximum_uses_per_address] for am in (acc.receiving, acc.change)],
+                                 'addresses': lists, 'fresh': list(fresh),
+                                 'saved_generator': saved.get('address_generator'),
+                                 'xpub': acc.public_key.extended_key_string(), 'acct': key_obs(acc.public_key)})
+                    d = saved
+                finally:
+                    await ledger.db.close()
+            return gens
+        gens = must('Account save / restore (from_dict / ensure_address_gap / to_dict / wallet file)',
+                    lambda: loop.run_until_complete(go()))
+    finally:
+        loop.close()
+        shutil.rmtree(tmp, ignore_errors=True)
+
+    ref = RefKey.from_seed(ref_stretch(case['mnemonic'], 'lbryum'))
+    refchains = {c: ref.neuter().child(c) for c in (0, 1)}
+    want = {c: [[i, refchains[c].child(i).address(prefix)] for i in range(want_cfg[c][0])] for c in (0, 1)}
+    how = 'Account.to_dict() -> Account.from_dict()' if case['route'] == 'dict' else 'wallet.save() -> Wallet.from_storage()'
+    bad = None
+    for k, g in enumerate(gens):
+        when = 'as configured' if k == 0 else f'after {k} x {how}'
+        if g['xpub'] != ref.xpub(LEDGERS[lname].extended_public_key_prefix):
+            bad = f'{when}: the account key is not the BIP32 master of the stretched mnemonic'
+        for c, cname in ((0, 'receiving'), (1, 'change')):
+            if bad:
+                break
+            got = g['addresses'][c]
+            if got != want[c]:
+                bad = (f'same mnemonic, settings receiving {want_cfg[0]}, change {want_cfg[1]} (gap, maximum_uses_per_address): '
+                       f'{when} the {cname} chain regenerates {len(got)} addresses, {len(want[c])} as configured '
+                       f'(m/{c}/0..{len(want[c]) - 1}); restored settings {g["settings"][c]}; the address_generator written '
+                       f'before this restore: {gens[k - 1]["saved_generator"] if k else gen}')
+                if len(got) == len(want[c]):
+                    bad += f'; first difference at index {next(i for i, (a, b) in enumerate(zip(got, want[c])) if a != b)}'
+            elif g['settings'][c] != want_cfg[c]:
+                bad = (f'{when} the {cname} chain has settings {g["settings"][c]}, configured {want_cfg[c]}; written: '
+                       f'{gens[k - 1]["saved_generator"] if k else gen}')
+        if not bad and g['fresh'] != [a for c in (0, 1) for _, a in g['addresses'][c]]:
+            bad = f'{when}: account.ensure_address_gap on a fresh database returned other addresses than it stored'
+        if bad:
+            break
+    if bad:
+        run.violation(case, bad, signature=sig)
+        return
+    # model: every generation is one ensure(gap) on an empty chain of the same account key (the monitor has already
+    # established that all generations list the same addresses: the last one is compared)
+    for g in gens[-1:]:
+        for c in (0, 1):
+            mod = model.call('gap_run', prefix=prefix.hex(), acct=g['acct'], c=c, ops=[['ensure', want_cfg[c][0]]])
+            run.compare('C06.gap_rows_after_restore', case, g['addresses'][c], [[r['n'], r['addr']] for r in mod['rows']])
+
+
 # ---- mnemonic ---------------------------------------------------------------------------------------
 _wordlists = {}
 
@@ -1516,7 +1614,7 @@ def do_stretch(run, model, case):
 DISPATCH = {
     'b58enc': do_b58enc, 'b58dec': do_b58dec, 'b58check': do_b58check, 'b58check_corrupt': do_b58check_corrupt,
     'xparse': do_xparse, 'xstr': do_xstr, 'derive': do_derive, 'forced': do_forced, 'account': do_account,
-    'single': do_single, 'stretch': do_stretch, 'stretch_multi': do_stretch_multi,
+    'single': do_single, 'save_restore': do_save_restore, 'stretch': do_stretch, 'stretch_multi': do_stretch_multi,
     'addrcheck': do_addrcheck, 'addrvalid': do_addrvalid, 'generator_switch': do_generator_switch, 'encrypt_cycle': do_encrypt_cycle, 'normalize': do_normalize, 'stretch_u': do_stretch_u, 'mn': do_mn, 'mndec': do_mndec, 'wordlists': do_wordlists, 'make_seed': do_make_seed, 'scalar': do_scalar,
 }
 
@@ -1864,6 +1962,22 @@ def gen_account(rng, n):
                'generator': gen, 'ops': ops}
 
 
+def gen_save_restore(rng, n):
+    """gap settings x save route: every ordered pair over the per-chain settings where a default of EITHER chain, a
+    neighbour of a default, 0/1 and an absent entry sit on each chain (deterministic family, the mnemonic and ledger
+    come from the seed), then n random pairs"""
+    english = wordlist('english')
+    settings = [None, [20, 1], [6, 1], [20, 2], [19, 1], [21, 1], [7, 2], [1, 1], [0, 1]]
+    pairs = [(r, c) for r in settings for c in settings
+             if r in (None, [20, 1], [6, 1]) or c in (None, [20, 1], [6, 1]) or r == c]
+    for _ in range(n):
+        pairs.append(([rng.randint(0, 24), rng.choice([1, 1, 2, 3])], [rng.randint(0, 24), rng.choice([1, 1, 2, 3])]))
+    for j, (r, c) in enumerate(pairs):
+        words = [rng.choice(english) for _ in range(rng.choice([1, 12, 12]))]
+        yield {'op': 'save_restore', 'ledger': rng.choice(['main', 'main', 'regtest']), 'mnemonic': ' '.join(words),
+               'receiving': r, 'change': c, 'route': 'dict' if j % 2 == 0 else 'file', 'restarts': 1 + (j % 3 == 0)}
+
+
 WORDLISTS = ['english', 'spanish', 'japanese', 'portuguese', 'chinese_simplified']
 
 
@@ -1988,7 +2102,9 @@ def main(run):
         'master / hardened-child / normal-child private keys with a leading zero byte, each serialised and used as parent of '
         'hardened and normal children; child() with forced HMAC '
         'output (tweak >= n, k+t = 0 mod n, short chain code, depth 255); real Accounts on a sqlite Database with random '
-        'gap settings and usage patterns; mnemonic integers at n^k-1, n^k, n^k+1 for the 5 shipped lists and synthetic '
+        'gap settings and usage patterns; accounts saved (Account.to_dict / wallet file) and restored into a fresh database once or '
+        'twice for every pairing of per-chain settings with the receiving default (20,1), the change default (6,1), an absent '
+        'entry, their neighbours and 0/1, plus random pairs; mnemonic integers at n^k-1, n^k, n^k+1 for the 5 shipped lists and synthetic '
         'lists of 2,3,5,10 words, random integers up to 300 bits and word strings with odd whitespace / unknown words. '
         'distinct = distinct case dict; non-trivial = has a non-zero byte / non-empty path / more than one account op.')
     for case in corpus_cases():
@@ -2080,6 +2196,9 @@ def main(run):
         check_case(run, model, case)
     for j in range(3 * n):
         check_case(run, model, {'op': 'make_seed', 'rseed': rng.getrandbits(32), 'bits': rng.choice([132, 132, 64, 200])})
+    # last (draws from the same rng: nothing generated above moves): gap settings through a save / restore
+    for case in gen_save_restore(rng, 6 * n):
+        check_case(run, model, case)
     run.supporting = {'oracle_calls': model.oracle_calls, 'model_calls': model.calls}
     meta = json.load(open(os.path.join(os.path.dirname(__file__), 'c06.meta.json')))
     run.partial = meta.get('partial', [])
